@@ -39,7 +39,7 @@ AgainstRef(e, S, pts, Ref(_)) ==
 
 JudgeExpr(e, v, pts, o, model) ==
   IF o.k # "expr" THEN [tags |-> <<(IF o.k = "DomainError" THEN "V:C05.raised" ELSE "V:C17.foreign_" \o o.t)>>,
-                        bad |-> <<>>, und |-> <<>>, fl |-> <<>>, n |-> 0]
+                        bad |-> <<>>, und |-> <<>>, fl |-> <<>>, n |-> 0, idv |-> "na"]
   ELSE LET S == o.e
            a == AgainstRef(e, S, pts, LAMBDA p: DVal(e, v, p))
            t1 == IF Vars(S) \subseteq Vars(e) THEN <<>> ELSE <<"V:C05.new_variable">>
@@ -47,7 +47,9 @@ JudgeExpr(e, v, pts, o, model) ==
            t3 == IF Len(a.bad) > 0 THEN <<"V?:C05.value">> ELSE <<>>
            t4 == IF Len(a.und) > 0 THEN <<"V?:C05.undefined_on_domain">> ELSE <<>>
            t5 == IF Strip(model) = Strip(S) THEN <<>> ELSE <<"drift">>
-       IN [tags |-> t1 \o t2 \o t3 \o t4 \o t5, bad |-> a.bad, und |-> a.und, fl |-> a.fl, n |-> a.n]
+           idv == IdentityVerdict(Deriv(Strip(e), v), Strip(S))
+           t6 == IF idv = "differs" THEN <<"V?:C05.value_identity_grid">> ELSE <<>>
+       IN [tags |-> t1 \o t2 \o t3 \o t4 \o t5 \o t6, bad |-> a.bad, und |-> a.und, fl |-> a.fl, n |-> a.n, idv |-> idv]
 
 JudgeSecond(e, v, w, pts, o) ==
   IF o.k # "expr" THEN [tags |-> <<(IF o.k = "DomainError" THEN "V:C05.raised_second" ELSE "V:C17.foreign_" \o o.t)>>,
@@ -67,7 +69,7 @@ Verdict(c) ==
          dm == AgainstRef(e, mf, c.pts, LAMBDA p: DVal(e, v, p))
          dr == AgainstRef(e, mr, c.pts, LAMBDA p: DVal(e, v, p))
      IN [pa |-> JudgeExpr(e, v, c.pts, c.outs[t].pa, mf),
-         de |-> IF c.outs[t].de.k = "na" THEN [tags |-> <<>>, bad |-> <<>>, und |-> <<>>, fl |-> <<>>, n |-> 0]
+         de |-> IF c.outs[t].de.k = "na" THEN [tags |-> <<>>, bad |-> <<>>, und |-> <<>>, fl |-> <<>>, n |-> 0, idv |-> "na"]
                 ELSE JudgeExpr(e, v, c.pts, c.outs[t].de, mf),
          df |-> JudgeExpr(e, v, c.pts, c.outs[t].df, mr),
          second |-> [u \in 1..Len(c.q2) |-> JudgeSecond(e, v, c.q2[u], c.pts, c.second[t][u])],
